@@ -493,6 +493,29 @@ func closure(tree interface{}) []Mut {
 				}
 			}
 
+			// a JOSE header (an object with a string "alg"): every registered header member it does NOT carry is added
+			// with a value of each wrong type (decoders test optional members only when they are present)
+			if _, isJOSE := t["alg"].(string); isJOSE {
+				for _, name := range []string{"typ", "cty", "crit", "b64", "kid", "jwk", "skid", "apu", "apv", "epk", "enc", "zip", "x5c"} {
+					if _, has := t[name]; has {
+						continue
+					}
+
+					for _, v := range []struct {
+						n string
+						v interface{}
+					}{{"null", nil}, {"0", json.Number("0")}, {"arr", []interface{}{}}, {"obj", map[string]interface{}{}}, {"JWT", "JWT"}} {
+						c := make(map[string]interface{}, len(t)+1)
+						for kk, vv := range t {
+							c[kk] = vv
+						}
+
+						c[name] = v.v
+						add(p, "add-"+name+"-"+v.n, c)
+					}
+				}
+			}
+
 			// a verification method: every type with every form of the key material present / absent / empty
 			if _, isVM := t["type"].(string); isVM && hasKeyMember(t) {
 				b58, _ := t["publicKeyBase58"].(string)
